@@ -10,6 +10,7 @@ import (
 	"errors"
 	"fmt"
 	"io"
+	"reflect"
 	"regexp"
 	"strings"
 
@@ -61,6 +62,10 @@ func runC19(seed int64, tier string, sc *Script) map[string]any {
 	sc.NonTrivial()
 	layer := content.NewDescriptorFromBytes("application/vnd.verif.layer", []byte("layer-bytes"))
 	subjectDesc := content.NewDescriptorFromBytes(ocispec.MediaTypeImageManifest, []byte(`{"x":1}`))
+	// (the subject as an earlier PackManifest returned it: with artifact type and annotations;
+	// it is written as requested, field for field)
+	subjectDesc.ArtifactType = "application/vnd.verif.subject"
+	subjectDesc.Annotations = map[string]string{"org.opencontainers.image.created": "2001-02-03T04:05:06Z", "s": "t"}
 	userCfgBytes := []byte(`{"user":"config"}`)
 	for _, ver := range []string{"10", "11"} {
 		for _, at := range []string{"empty", "valid", "invalid"} {
@@ -280,6 +285,9 @@ func checkPacked(ctx context.Context, st *memory.Store, desc ocispec.Descriptor,
 	}
 	if subject != (m.Subject != nil) {
 		return "subject"
+	}
+	if subject && !reflect.DeepEqual(*m.Subject, *opts.Subject) {
+		return "subject-not-the-requested-one"
 	}
 	if ver == "11" && m.ArtifactType != artifactType {
 		return "artifactType"
